@@ -907,7 +907,7 @@ pub fn run_c24(args: &Args) {
         "C24",
         "modelcheck c24",
         args,
-        "If / Loop models (nested to depth 2, loops feeding Ifs; bodies whose first consumer of a captured parent value is an in-place capable operator; captures that are graph inputs, constants or operator outputs; captured values used again after the control-flow operator or not; trip counts 0/1/3, conditions turning false mid-way, scan outputs) each paired with the inlined model the generator builds from the same body functions (branch chosen by the concrete condition, loop unrolled for the concrete iteration count). Both are run un-optimised (compared bit-exactly) and optimised (1e-4+1e-3 rel), with inputs borrowed and owned. non-trivial = the executor's events show the control-flow operator ran and at least one parent value was passed to the subgraph by value or an operator inside ran in place; distinct by (case, input set, config, ownership)",
+        "If / Loop models (nested to depth 2, loops feeding Ifs; bodies whose first consumer of a captured parent value is an in-place capable operator; captures that are graph inputs, constants or operator outputs; captured values used again after the control-flow operator or not; trip counts 0/1/3, conditions turning false mid-way, scan outputs) each paired with the inlined model the generator builds from the same body functions (branch chosen by the concrete condition, loop unrolled for the concrete iteration count). Bodies also hold subgraph-local constants (a MatMul weight, an elementwise constant) that differ between the two branches of an If. Both are run un-optimised (values compared exactly), optimised and with pre-packed weights (1e-4+1e-3 rel), with inputs borrowed and owned. non-trivial = the executor's events show the control-flow operator ran and at least one parent value was passed to the subgraph by value or an operator inside ran in place; distinct by (case, input set, config, ownership)",
     );
     install_sink();
     let cases = cases_from(args, "cflow");
@@ -917,12 +917,12 @@ pub fn run_c24(args: &Args) {
         if alt_outputs.len() != c.outputs.len() {
             continue;
         }
-        for cfg in [LoadCfg::BASE, LoadCfg::DEFAULT] {
+        for cfg in [LoadCfg::BASE, LoadCfg::DEFAULT, LoadCfg { optimize: false, shape_mode: 0, prepack: true }, LoadCfg { optimize: true, shape_mode: 1, prepack: true }] {
             let (Ok(cf), Ok(alt)) = (load(&c.model, cfg), load(alt_bytes, cfg)) else {
                 rep.count("load_error");
                 continue;
             };
-            let tol = if cfg.optimize { Tol::for_class("model") } else { Tol::Exact };
+            let tol = if cfg.optimize || cfg.prepack { Tol::for_class("model") } else { Tol::Exact };
             for k in 0..c.input_sets.len() {
                 let inputs = c.input_set(k);
                 let Ok(want) = run_simple(&alt, &inputs, &alt_outputs, None) else {
